@@ -13,6 +13,7 @@ from typing import Any, Dict, List, Optional, Tuple
 import numpy
 
 from .. import prelude, core, model, seams
+from ..runner import NUMPOLY_DIR
 from ..model import gen_poly
 
 ID = "C07"
@@ -146,6 +147,8 @@ def generate(rs: int, tier: str, index: int) -> dict:
                 lit["coefficients"] = [[float(numpy.float32(v)) for v in col] for col in lit["coefficients"]]
         steps.append({"id": 0, "k": "pair", "a": {"poly": a}, "b": b, "swap": swap, "complex": kindc == "complex",
                       "extra_op": ch.below(6), "reach": _reach(ch.sub("r")), "other_options": _other(ch.sub("oo"))})
+        if ch.sub("abort").chance(0.15):
+            steps[-1]["abort_first"] = ch.sub("abort").below(100000)
         cr = ch.sub("rewrite")
         if kind != "plain" and cr.chance(0.3):
             # history: the operands were compared before; then one of them got new coefficient values in place
@@ -289,6 +292,10 @@ class Runner:
                 ref_a = fresh
             else:
                 ref_b = fresh
+        if step.get("abort_first") is not None:
+            # history: the same comparison was requested before and aborted part-way
+            xop = OPS[step["abort_first"] % (2 if step.get("complex") else 6) + (4 if step.get("complex") else 0)][1]
+            seams.interrupted_first(lambda: xop(left, right), NUMPOLY_DIR, step["abort_first"] // 7, self.stats)
         ref_left, ref_right = (ref_b, ref_a) if step.get("swap") else (ref_a, ref_b)
         polys = [x for x in (ref_a, ref_b) if isinstance(x, numpoly.ndpoly)]
         names = union_names(*polys)
@@ -488,6 +495,8 @@ def simplify(plan: dict):
         if step["k"] == "pair":
             if step.get("rewrite"):
                 yield dict(plan, steps=[{k: v for k, v in step.items() if k != "rewrite"}])
+            if step.get("abort_first") is not None:
+                yield dict(plan, steps=[{k: v for k, v in step.items() if k != "abort_first"}])
             for key in ("a", "b"):
                 v = step[key]
                 if (step.get("rewrite") or {}).get("which") == key:
